@@ -18,7 +18,7 @@ CONSTANTS Emit, Prop, From, To
 
 Doc == Obj(<<Mem(<<97>>, Obj(<<Mem(<<98>>, JInt(1))>>))>>)
 Syn == {ErrS({"syntax"})}
-Cf(f, head, rep, tail, plus) == [f |-> f, head |-> head, rep |-> rep, tail |-> tail, t |-> "count", plus |-> plus, mul |-> IF f = "rawmixed" THEN 2 ELSE 1, adm |-> {}]
+Cf(f, head, rep, tail, plus) == [f |-> f, head |-> head, rep |-> rep, tail |-> tail, t |-> "count", plus |-> plus, mul |-> IF f \in {"rawmixed", "qidmixed"} THEN 2 ELSE 1, adm |-> {}]
 Kf(f, head, rep, tail, adm)  == [f |-> f, head |-> head, rep |-> rep, tail |-> tail, t |-> "const", plus |-> 0, mul |-> 1, adm |-> adm]
 Families == <<
   \* ---- well-formed tokens of every length
@@ -35,6 +35,11 @@ Families == <<
   Cf("json3",    <<108,101,110,103,116,104,40,96,34>>, <<8364>>, <<34,96,41>>, 0),
   Cf("jsonu",    <<108,101,110,103,116,104,40,96,34>>, <<92,117,50,48,97,99>>, <<34,96,41>>, 0),
   Cf("jsonpair", <<108,101,110,103,116,104,40,96,34>>, <<92,117,100,56,51,100,92,117,100,101,48,48>>, <<34,96,41>>, 0),
+  Cf("jsonupair", <<108,101,110,103,116,104,40,96,34>>, <<92,117,48,48,101,57>>, <<92,117,100,56,51,100,92,117,100,101,48,48,34,96,41>>, 1),
+  Cf("jsonupair2", <<108,101,110,103,116,104,40,96,34,97>>, <<92,117,48,48,101,57>>, <<92,117,100,56,51,100,92,117,100,101,48,48,92,117,48,48,101,57,34,96,41>>, 3),
+  Cf("qidupair",  <<108,101,110,103,116,104,40,107,101,121,115,40,123,34>>, <<92,117,48,48,101,57>>, <<92,117,100,56,51,100,92,117,100,101,48,48,34,58,32,96,49,96,125,41,91,48,93,41>>, 1),
+  Cf("qidpairs",  <<108,101,110,103,116,104,40,107,101,121,115,40,123,34>>, <<92,117,100,56,51,100,92,117,100,101,48,48>>, <<34,58,32,96,49,96,125,41,91,48,93,41>>, 0),
+  Cf("qidmixed",  <<108,101,110,103,116,104,40,107,101,121,115,40,123,34>>, <<92,117,48,48,101,57,120>>, <<92,117,100,56,51,100,92,117,100,101,48,48,34,58,32,96,49,96,125,41,91,48,93,41>>, 1),
   Cf("jsonarr",  <<108,101,110,103,116,104,40,96,91,34>>, <<120>>, <<34,93,96,91,48,93,41>>, 0),
   Cf("jsonobj",  <<108,101,110,103,116,104,40,96,123,34,107,34,58,34>>, <<120>>, <<34,125,96,46,107,41>>, 0),
   Kf("jsonsp",   <<108,101,110,103,116,104,40,96,91>>, <<32>>, <<34,97,98,34,93,96,91,48,93,41>>, {JInt(2)}),
